@@ -7,6 +7,7 @@ CONSTANTS
   Mode = "grid"
   MaxOps = 30
   MaxMut = 0
+  MaxConds = 0
   MaxObs = 0
   MaxRagged = 3
   MaxRaggedInt = 3
@@ -17,5 +18,6 @@ INVARIANT TypeOK
 INVARIANT C19_Header
 INVARIANT C19_RowCount
 INVARIANT C19_CellIsFormattedValue
+INVARIANT SolvedHolderComplete
 CONSTRAINT Emit
 CHECK_DEADLOCK FALSE
